@@ -36,6 +36,7 @@ import Apko.Model.Memo
 import Apko.Proofs.C08
 import Apko.Proofs.Lemmas.CacheStep
 import Apko.Proofs.Lemmas.CacheLive
+import Apko.Proofs.Lemmas.CacheSig
 import Apko.Generated.Cache
 
 set_option linter.unusedSimpArgs false
@@ -130,44 +131,137 @@ theorem wt_indexOnline (t : Name) (hk gk : Cid) (n : Nat) (ht : t.isTmp = true) 
 theorem wt_indexOffline (cands : List Name) : wt (fun _ => .unborn) (indexOffline cands) :=
   ⟨trivial, trivial⟩
 
-theorem wt_pkgMiss (t1 t2 t3 t4 : Name) (k1 k2 k3 : Cid) (n : Nat)
-    (h1 : t1.isTmp = true) (h2 : t2.isTmp = true) (h3 : t3.isTmp = true) (h4 : t4.isTmp = true)
-    (h12 : t1 ≠ t2) (h13 : t1 ≠ t3) (h23 : t2 ≠ t3) (h14 : t1 ≠ t4) (h24 : t2 ≠ t4) (h34 : t3 ≠ t4) :
-    wt (fun _ => .unborn) (pkgMiss t1 t2 t3 t4 k1 k2 k3 n) := by
+theorem wt_sigProbe (Γ : Ctx) (sg : Option (Name × Cid)) (rest : Prog) (hr : wt Γ rest) :
+    wt Γ (sigProbe sg rest) := by
+  cases sg with
+  | none => exact hr
+  | some p => exact ⟨⟨trivial, hr⟩, trivial, hr⟩
+
+/-- the temp names of one package builder are distinct temp names -/
+structure Temps (sg : Option (Name × Cid)) (t1 t2 t3 t4 : Name) : Prop where
+  m1 : t1.isTmp = true
+  m2 : t2.isTmp = true
+  m3 : t3.isTmp = true
+  m4 : t4.isTmp = true
+  h12 : t1 ≠ t2
+  h13 : t1 ≠ t3
+  h23 : t2 ≠ t3
+  h14 : t1 ≠ t4
+  h24 : t2 ≠ t4
+  h34 : t3 ≠ t4
+  hs : SgAll sg (fun t0 _ => t0.isTmp = true ∧ t0 ≠ t1 ∧ t0 ≠ t2 ∧ t0 ≠ t3 ∧ t0 ≠ t4)
+
+theorem wt_cacheTail (Γ : Ctx) (sg : Option (Name × Cid)) (t1 t2 t3 t4 : Name) (k1 k2 k3 : Cid) (n : Nat)
+    (ht : Temps sg t1 t2 t3 t4)
+    (c1 : Γ t1 = .closed k1) (c2 : Γ t2 = .closed k2) (c3 : Γ t3 = .closed k3) (c4 : Γ t4 = .unborn)
+    (c0 : SgAll sg (fun t0 k0 => Γ t0 = .closed k0)) :
+    wt Γ (cacheTail (pkgData t4 k2 k3 n) sg t1 t2 t3 k1 k2 k3) := by
+  obtain ⟨m1, m2, m3, m4, h12, h13, h23, h14, h24, h34, hs⟩ := ht
   have h21 := h12.symm
   have h31 := h13.symm
   have h32 := h23.symm
   have h41 := h14.symm
   have h42 := h24.symm
   have h43 := h34.symm
-  refine ⟨trivial, trivial, trivial, ⟨rfl, h1⟩, trivial, ?_⟩
-  refine wt_chunks _ n t1 k1 _ (by simp [ctxStep, Ctx.upd]) ?_
-  refine ⟨⟨k1, by simp [ctxStep, Ctx.upd]⟩, trivial,
-    ⟨by simp [ctxStep, Ctx.upd, h12, h13, h23, h21, h31, h32], h2⟩, trivial,
-    ⟨by simp [ctxStep, Ctx.upd, h12, h13, h23, h21, h31, h32], h3⟩, trivial, ?_⟩
-  refine wt_chunks _ n t2 k2 _ (by simp [ctxStep, Ctx.upd, h12, h13, h23, h21, h31, h32]) ?_
-  refine wt_chunks _ n t3 k3 _ (by simp [ctxStep, Ctx.upd, h12, h13, h23, h21, h31, h32]) ?_
-  refine ⟨⟨k3, by simp [ctxStep, Ctx.upd, h12, h13, h23, h21, h31, h32]⟩,
-    ⟨k2, by simp [ctxStep, Ctx.upd, h12, h13, h23, h21, h31, h32]⟩, trivial, trivial,
-    trivial, trivial, ?_⟩
-  refine wt_advertise _ t1 k1 _ (by simp [ctxStep, Ctx.upd, h12, h13, h23, h21, h31, h32]) ⟨trivial, ?_⟩
-  refine wt_advertise _ t2 k2 _ (by simp [ctxStep, Ctx.upd, h12, h13, h23, h21, h31, h32]) ⟨trivial, ?_⟩
-  refine wt_advertise _ t3 k3 _ (by simp [ctxStep, Ctx.upd, h12, h13, h23, h21, h31, h32]) ⟨trivial, ?_⟩
-  exact wt_pkgData _ t4 k2 k3 n _
-    (by simp [ctxStep, Ctx.upd, h12, h13, h23, h21, h31, h32, h41, h42, h43]) h4
-    (fun Γ' => wt_pkgUse Γ' k1)
+  have hrest : ∀ Γ' : Ctx, Γ' t2 = .closed k2 → Γ' t3 = .closed k3 → Γ' t4 = .unborn →
+      wt Γ' (advertise t2 k2 <| .op (.mark 7) <| advertise t3 k3 <| .op (.mark 8) <|
+        pkgData t4 k2 k3 n (pkgUse k1)) := by
+    intro Γ' d2 d3 d4
+    refine wt_advertise _ t2 k2 _ d2 ⟨trivial, ?_⟩
+    refine wt_advertise _ t3 k3 _ (by simp [ctxStep, Ctx.upd, h32, d3]) ⟨trivial, ?_⟩
+    exact wt_pkgData _ t4 k2 k3 n _ (by simp [ctxStep, Ctx.upd, h42, h43, d4]) m4
+      (fun Γ'' => wt_pkgUse Γ'' k1)
+  unfold cacheTail
+  refine wt_advertise _ t1 k1 _ c1 ⟨trivial, ?_⟩
+  cases sg with
+  | none =>
+    simp only [advSig]
+    exact hrest _ (by simp [ctxStep, Ctx.upd, h21, c2]) (by simp [ctxStep, Ctx.upd, h31, c3])
+      (by simp [ctxStep, Ctx.upd, h41, c4])
+  | some p =>
+    obtain ⟨t0, k0⟩ := p
+    obtain ⟨m0, h01, h02, h03, h04⟩ := hs
+    simp only [advSig]
+    refine wt_advertise _ t0 k0 _ (by simp [ctxStep, Ctx.upd, h01]; exact c0) ⟨trivial, ?_⟩
+    exact hrest _ (by simp [ctxStep, Ctx.upd, h21, h02.symm, c2])
+      (by simp [ctxStep, Ctx.upd, h31, h03.symm, c3]) (by simp [ctxStep, Ctx.upd, h41, h04.symm, c4])
 
-theorem wt_pkgBuilder (t1 t2 t3 t4 : Name) (k1 k2 k3 : Cid) (n : Nat)
-    (h1 : t1.isTmp = true) (h2 : t2.isTmp = true) (h3 : t3.isTmp = true) (h4 : t4.isTmp = true)
-    (h12 : t1 ≠ t2) (h13 : t1 ≠ t3) (h23 : t2 ≠ t3) (h14 : t1 ≠ t4) (h24 : t2 ≠ t4) (h34 : t3 ≠ t4) :
-    wt (fun _ => .unborn) (pkgBuilder t1 t2 t3 t4 k1 k2 k3 n) :=
-  ⟨⟨trivial, wt_pkgData _ t4 k2 k3 n _ rfl h4 (fun Γ' => wt_pkgUse Γ' k1),
-      wt_pkgMiss t1 t2 t3 t4 k1 k2 k3 n h1 h2 h3 h4 h12 h13 h23 h14 h24 h34⟩,
-    wt_pkgMiss t1 t2 t3 t4 k1 k2 k3 n h1 h2 h3 h4 h12 h13 h23 h14 h24 h34⟩
+theorem wt_pkgExpand (sg : Option (Name × Cid)) (t1 t2 t3 t4 : Name) (k1 k2 k3 : Cid) (n : Nat) (tail : Prog)
+    (ht : Temps sg t1 t2 t3 t4)
+    (htail : ∀ Γ : Ctx, Γ t1 = .closed k1 → Γ t2 = .closed k2 → Γ t3 = .closed k3 → Γ t4 = .unborn →
+      SgAll sg (fun t0 k0 => Γ t0 = .closed k0) → wt Γ tail) :
+    wt (fun _ => .unborn) (pkgExpand sg t1 t2 t3 k1 k2 k3 n tail) := by
+  obtain ⟨m1, m2, m3, m4, h12, h13, h23, h14, h24, h34, hs⟩ := ht
+  have h21 := h12.symm
+  have h31 := h13.symm
+  have h32 := h23.symm
+  have h41 := h14.symm
+  have h42 := h24.symm
+  have h43 := h34.symm
+  unfold pkgExpand
+  refine ⟨trivial, trivial, trivial, ?_⟩
+  cases sg with
+  | none =>
+    simp only [expandHead]
+    refine ⟨⟨rfl, m1⟩, trivial, ?_⟩
+    refine wt_chunks _ n t1 k1 _ (by simp [ctxStep, Ctx.upd, h12, h13, h23, h21, h31, h32, h41, h42, h43]) ?_
+    refine ⟨⟨k1, by simp [ctxStep, Ctx.upd, h12, h13, h23, h21, h31, h32, h41, h42, h43]⟩, trivial,
+      ⟨by simp [ctxStep, Ctx.upd, h12, h13, h23, h21, h31, h32, h41, h42, h43], m2⟩, trivial,
+      ⟨by simp [ctxStep, Ctx.upd, h12, h13, h23, h21, h31, h32, h41, h42, h43], m3⟩, trivial, ?_⟩
+    refine wt_chunks _ n t2 k2 _ (by simp [ctxStep, Ctx.upd, h12, h13, h23, h21, h31, h32, h41, h42, h43]) ?_
+    refine wt_chunks _ n t3 k3 _ (by simp [ctxStep, Ctx.upd, h12, h13, h23, h21, h31, h32, h41, h42, h43]) ?_
+    refine ⟨⟨k3, by simp [ctxStep, Ctx.upd, h12, h13, h23, h21, h31, h32, h41, h42, h43]⟩,
+      ⟨k2, by simp [ctxStep, Ctx.upd, h12, h13, h23, h21, h31, h32, h41, h42, h43]⟩, trivial, trivial, trivial, trivial, ?_⟩
+    refine htail _ ?_ ?_ ?_ ?_ trivial
+    · simp [ctxStep, Ctx.upd, h12, h13, h23, h21, h31, h32, h41, h42, h43]
+    · simp [ctxStep, Ctx.upd, h12, h13, h23, h21, h31, h32, h41, h42, h43]
+    · simp [ctxStep, Ctx.upd, h12, h13, h23, h21, h31, h32, h41, h42, h43]
+    · simp [ctxStep, Ctx.upd, h12, h13, h23, h21, h31, h32, h41, h42, h43]
+  | some p =>
+    obtain ⟨t0, k0⟩ := p
+    obtain ⟨m0, h01, h02, h03, h04⟩ := hs
+    have h10 := h01.symm
+    have h20 := h02.symm
+    have h30 := h03.symm
+    have h40 := h04.symm
+    simp only [expandHead]
+    refine ⟨⟨rfl, m0⟩, trivial, ?_⟩
+    refine wt_chunks _ n t0 k0 _ (by simp [ctxStep, Ctx.upd, h12, h13, h23, h21, h31, h32, h41, h42, h43, h01, h02, h03, h04, h10, h20, h30, h40]) ?_
+    refine ⟨⟨k0, by simp [ctxStep, Ctx.upd, h12, h13, h23, h21, h31, h32, h41, h42, h43, h01, h02, h03, h04, h10, h20, h30, h40]⟩, trivial, ⟨by simp [ctxStep, Ctx.upd, h12, h13, h23, h21, h31, h32, h41, h42, h43, h01, h02, h03, h04, h10, h20, h30, h40], m1⟩, trivial, ?_⟩
+    refine wt_chunks _ n t1 k1 _ (by simp [ctxStep, Ctx.upd, h12, h13, h23, h21, h31, h32, h41, h42, h43, h01, h02, h03, h04, h10, h20, h30, h40]) ?_
+    refine ⟨⟨k1, by simp [ctxStep, Ctx.upd, h12, h13, h23, h21, h31, h32, h41, h42, h43, h01, h02, h03, h04, h10, h20, h30, h40]⟩,
+      ⟨by simp [ctxStep, Ctx.upd, h12, h13, h23, h21, h31, h32, h41, h42, h43, h01, h02, h03, h04, h10, h20, h30, h40], m2⟩, trivial,
+      ⟨by simp [ctxStep, Ctx.upd, h12, h13, h23, h21, h31, h32, h41, h42, h43, h01, h02, h03, h04, h10, h20, h30, h40], m3⟩, trivial, ?_⟩
+    refine wt_chunks _ n t2 k2 _ (by simp [ctxStep, Ctx.upd, h12, h13, h23, h21, h31, h32, h41, h42, h43, h01, h02, h03, h04, h10, h20, h30, h40]) ?_
+    refine wt_chunks _ n t3 k3 _ (by simp [ctxStep, Ctx.upd, h12, h13, h23, h21, h31, h32, h41, h42, h43, h01, h02, h03, h04, h10, h20, h30, h40]) ?_
+    refine ⟨⟨k3, by simp [ctxStep, Ctx.upd, h12, h13, h23, h21, h31, h32, h41, h42, h43, h01, h02, h03, h04, h10, h20, h30, h40]⟩,
+      ⟨k2, by simp [ctxStep, Ctx.upd, h12, h13, h23, h21, h31, h32, h41, h42, h43, h01, h02, h03, h04, h10, h20, h30, h40]⟩, trivial, trivial, trivial, trivial, ?_⟩
+    refine htail _ ?_ ?_ ?_ ?_ ?_
+    · simp [ctxStep, Ctx.upd, h12, h13, h23, h21, h31, h32, h41, h42, h43, h01, h02, h03, h04, h10, h20, h30, h40]
+    · simp [ctxStep, Ctx.upd, h12, h13, h23, h21, h31, h32, h41, h42, h43, h01, h02, h03, h04, h10, h20, h30, h40]
+    · simp [ctxStep, Ctx.upd, h12, h13, h23, h21, h31, h32, h41, h42, h43, h01, h02, h03, h04, h10, h20, h30, h40]
+    · simp [ctxStep, Ctx.upd, h12, h13, h23, h21, h31, h32, h41, h42, h43, h01, h02, h03, h04, h10, h20, h30, h40]
+    · show _ = _
+      simp [ctxStep, Ctx.upd, h12, h13, h23, h21, h31, h32, h41, h42, h43, h01, h02, h03, h04, h10, h20, h30, h40]
 
-theorem wt_pkgOffline (t4 : Name) (k1 k2 k3 : Cid) (n : Nat) (h4 : t4.isTmp = true) :
-    wt (fun _ => .unborn) (pkgOffline t4 k1 k2 k3 n) :=
-  ⟨⟨trivial, wt_pkgData _ t4 k2 k3 n _ rfl h4 (fun Γ' => wt_pkgUse Γ' k1), trivial⟩, trivial⟩
+theorem wt_pkgMiss (sg : Option (Name × Cid)) (t1 t2 t3 t4 : Name) (k1 k2 k3 : Cid) (n : Nat)
+    (ht : Temps sg t1 t2 t3 t4) :
+    wt (fun _ => .unborn) (pkgMiss sg t1 t2 t3 t4 k1 k2 k3 n) := by
+  unfold pkgMiss pkgMissWith
+  exact wt_pkgExpand sg t1 t2 t3 t4 k1 k2 k3 n _ ht
+    (fun Γ c1 c2 c3 c4 c0 => wt_cacheTail Γ sg t1 t2 t3 t4 k1 k2 k3 n ht c1 c2 c3 c4 c0)
+
+theorem wt_pkgBuilder (sg : Option (Name × Cid)) (t1 t2 t3 t4 : Name) (k1 k2 k3 : Cid) (n : Nat)
+    (ht : Temps sg t1 t2 t3 t4) :
+    wt (fun _ => .unborn) (pkgBuilder sg t1 t2 t3 t4 k1 k2 k3 n) :=
+  ⟨⟨trivial, ⟨trivial, wt_sigProbe _ sg _ (wt_pkgData _ t4 k2 k3 n _ rfl ht.m4 (fun Γ' => wt_pkgUse Γ' k1))⟩,
+      wt_pkgMiss sg t1 t2 t3 t4 k1 k2 k3 n ht⟩,
+    wt_pkgMiss sg t1 t2 t3 t4 k1 k2 k3 n ht⟩
+
+theorem wt_pkgOffline (sg : Option (Name × Cid)) (t4 : Name) (k1 k2 k3 : Cid) (n : Nat) (h4 : t4.isTmp = true) :
+    wt (fun _ => .unborn) (pkgOffline sg t4 k1 k2 k3 n) :=
+  ⟨⟨trivial, ⟨trivial, wt_sigProbe _ sg _ (wt_pkgData _ t4 k2 k3 n _ rfl h4 (fun Γ' => wt_pkgUse Γ' k1))⟩,
+    trivial⟩, trivial⟩
 
 /-! ### F19a: the regeneration write under the final name (the tree before the fix) breaks the invariant -/
 
@@ -180,14 +274,14 @@ def f19aPool : Nat → Proc
 
 /-- the same three builders on the repaired tree -/
 def fixedPool : Nat → Proc
-  | 0 => Proc.new (pkgBuilder (.tmp 1) (.tmp 2) (.tmp 3) (.tmp 10) 1 2 3 1)
-  | 1 => Proc.new (pkgBuilder (.tmp 4) (.tmp 5) (.tmp 6) (.tmp 11) 1 2 3 1)
-  | 2 => Proc.new (pkgBuilder (.tmp 7) (.tmp 8) (.tmp 9) (.tmp 12) 1 2 3 1)
+  | 0 => Proc.new (pkgBuilder none (.tmp 1) (.tmp 2) (.tmp 3) (.tmp 10) 1 2 3 1)
+  | 1 => Proc.new (pkgBuilder none (.tmp 4) (.tmp 5) (.tmp 6) (.tmp 11) 1 2 3 1)
+  | 2 => Proc.new (pkgBuilder none (.tmp 7) (.tmp 8) (.tmp 9) (.tmp 12) 1 2 3 1)
   | _ => Proc.new (.halt true)
 
 /-- builder 0 runs until it has advertised `.ctl.tar.gz` and `.dat.tar.gz` (26 steps) and stops
 (killed, or just slow); builder 1 takes the hit path and creates `.dat.tar` (6 steps) -/
-def f19aSched : List Nat := List.replicate 26 0 ++ List.replicate 6 1
+def f19aSched : List Nat := List.replicate 26 0 ++ List.replicate 7 1
 
 theorem good_empty : GoodFS FS.empty.get :=
   ⟨fun _ _ _ h => (by cases h), fun _ _ h => (by cases h)⟩
@@ -204,111 +298,43 @@ theorem adv_invariant_fails_before_fix : ¬ AdvOk (runSched f19aSched ⟨FS.empt
 third builder takes the hit path, reads the partial `.dat.tar` through its final name (a plain tar
 has no integrity trailer) and finishes *successfully* having used incomplete content. -/
 theorem f19a_silent :
-    let s := runSched (f19aSched ++ List.replicate 8 2) ⟨FS.empty, f19aPool⟩
+    let s := runSched (f19aSched ++ List.replicate 9 2) ⟨FS.empty, f19aPool⟩
     (s.procs 2).prog = .halt true ∧ (Name.adv 3, 3, false) ∈ (s.procs 2).obs := by decide
+
+theorem temps_lit (sg : Option (Name × Cid)) (t1 t2 t3 t4 : Name)
+    (h : (t1.isTmp && t2.isTmp && t3.isTmp && t4.isTmp && decide (t1 ≠ t2) && decide (t1 ≠ t3) &&
+      decide (t2 ≠ t3) && decide (t1 ≠ t4) && decide (t2 ≠ t4) && decide (t3 ≠ t4) &&
+      (match sg with
+       | none => true
+       | some (t0, _) => t0.isTmp && decide (t0 ≠ t1) && decide (t0 ≠ t2) && decide (t0 ≠ t3) &&
+          decide (t0 ≠ t4))) = true) : Temps sg t1 t2 t3 t4 := by
+  simp only [Bool.and_eq_true, decide_eq_true_eq] at h
+  obtain ⟨⟨⟨⟨⟨⟨⟨⟨⟨⟨m1, m2⟩, m3⟩, m4⟩, h12⟩, h13⟩, h23⟩, h14⟩, h24⟩, h34⟩, hs⟩ := h
+  refine ⟨m1, m2, m3, m4, h12, h13, h23, h14, h24, h34, ?_⟩
+  cases sg with
+  | none => trivial
+  | some p =>
+    obtain ⟨t0, k0⟩ := p
+    simp only [Bool.and_eq_true, decide_eq_true_eq] at hs
+    exact ⟨hs.1.1.1.1, hs.1.1.1.2, hs.1.1.2, hs.1.2, hs.2⟩
 
 theorem fixedPool_fresh : FreshPool fixedPool := by
   intro i
   match i with
-  | 0 => exact ⟨_, rfl, wt_pkgBuilder _ _ _ _ 1 2 3 1 rfl rfl rfl rfl (by decide) (by decide) (by decide) (by decide) (by decide) (by decide)⟩
-  | 1 => exact ⟨_, rfl, wt_pkgBuilder _ _ _ _ 1 2 3 1 rfl rfl rfl rfl (by decide) (by decide) (by decide) (by decide) (by decide) (by decide)⟩
-  | 2 => exact ⟨_, rfl, wt_pkgBuilder _ _ _ _ 1 2 3 1 rfl rfl rfl rfl (by decide) (by decide) (by decide) (by decide) (by decide) (by decide)⟩
+  | 0 => exact ⟨_, rfl, wt_pkgBuilder _ _ _ _ _ 1 2 3 1 (temps_lit _ _ _ _ _ (by decide))⟩
+  | 1 => exact ⟨_, rfl, wt_pkgBuilder _ _ _ _ _ 1 2 3 1 (temps_lit _ _ _ _ _ (by decide))⟩
+  | 2 => exact ⟨_, rfl, wt_pkgBuilder _ _ _ _ _ 1 2 3 1 (temps_lit _ _ _ _ _ (by decide))⟩
   | _ + 3 => exact ⟨_, rfl, trivial⟩
 
 /-- the hypotheses of `adv_invariant` are satisfiable by the real builders, and on the repaired tree
 the F19a schedule (continued: builder 1 killed after creating its temp, builder 2 recovering) ends
 with builder 2 having read the complete tar -/
 theorem fixed_f19a_schedule :
-    let s := runSched (List.replicate 26 0 ++ List.replicate 7 1 ++ List.replicate 14 2) ⟨FS.empty, fixedPool⟩
+    let s := runSched (List.replicate 26 0 ++ List.replicate 8 1 ++ List.replicate 15 2) ⟨FS.empty, fixedPool⟩
     (s.procs 2).prog = .halt true ∧ (Name.adv 3, 3, true) ∈ (s.procs 2).obs ∧
     s.fs.get (.adv 3) = some (.file 3 true) := by decide
 
 /-! ### advertised entries persist -/
-
-/-- no step of any well-typed builder removes a final name (a `rename` may replace it — by the same
-complete content, see `inv_step`) -/
-theorem adv_present_persist (s : State) (i : Nat) (h : Inv s.fs.get s.procs)
-    (k : Cid) (hk : s.fs.get (.adv k) ≠ none) : (s.step i).fs.get (.adv k) ≠ none := by
-  have hty := h.typed i
-  rw [step_fs]
-  revert hty
-  generalize hp : s.procs i = p
-  intro hty
-  obtain ⟨prog, Γ, obs, marks⟩ := p
-  have hΓ : (s.procs i).ctx = Γ := by rw [hp]
-  have tmpne : ∀ t, Owns Γ t → Name.adv k ≠ t := by
-    intro t ho e
-    have := h.ownTmp i t (by rw [hΓ]; exact ho)
-    rw [← e] at this; simp [Name.isTmp] at this
-  cases prog with
-  | halt b => exact hk
-  | ifStat n y no => exact hk
-  | op o next =>
-    simp only [wt] at hty
-    obtain ⟨hok, _⟩ := hty
-    simp only [stepProc]
-    cases o with
-    | mkdir => exact hk
-    | mark m => exact hk
-    | create t c =>
-      simp only [stepOp]
-      cases habs : s.fs.get t with
-      | none =>
-        have : Name.adv k ≠ t := by intro e; rw [e] at hk; exact hk habs
-        simp [FS.set, this, hk]
-      | some n => exact hk
-    | chunk t =>
-      simp only [stepOp]
-      obtain ⟨c0, hc0⟩ := hok
-      have := tmpne t (owns_opened hc0)
-      have hgt := h.ownOpen i t c0 (by rw [hΓ]; exact hc0)
-      simp [hgt, FS.set, this, hk]
-    | finish t =>
-      simp only [stepOp]
-      obtain ⟨c0, hc0⟩ := hok
-      have := tmpne t (owns_opened hc0)
-      have hgt := h.ownOpen i t c0 (by rw [hΓ]; exact hc0)
-      simp [hgt, FS.set, this, hk]
-    | symlink t dst =>
-      simp only [stepOp]
-      cases habs : s.fs.get dst with
-      | none =>
-        have : Name.adv k ≠ dst := by intro e; rw [e] at hk; exact hk habs
-        simp [FS.set, this, hk]
-      | some n => exact hk
-    | remove t =>
-      simp only [stepOp]
-      obtain ⟨c0, hc0⟩ := hok
-      have := tmpne t (owns_closed hc0)
-      simp [FS.set, this, hk]
-    | rename t dst =>
-      simp only [stepOp]
-      obtain ⟨k0, hk0, hdst⟩ := hok
-      have := tmpne t (owns_closed hk0)
-      have hgt := h.ownClosed i t k0 (by rw [hΓ]; exact hk0)
-      simp only [hgt, FS.set, this, if_false]
-      split
-      · simp
-      · exact hk
-    | regen dst c => exact hok.elim
-    | read n checked =>
-      simp only [stepOp]
-      cases s.fs.resolve n with
-      | none => exact hk
-      | some cb =>
-        obtain ⟨c, b⟩ := cb
-        by_cases hc : (checked && !b) = true <;> simp [hc, hk]
-    | readNewest cands =>
-      simp only [stepOp]
-      cases s.fs.newest cands with
-      | none => exact hk
-      | some n =>
-        dsimp only
-        cases s.fs.resolve n with
-        | none => exact hk
-        | some cb =>
-          obtain ⟨c, b⟩ := cb
-          by_cases hc : (!b) = true <;> simp [hc, hk]
 
 /-- T: once an advertised name is present it resolves for ever, to the complete content it names —
 under every schedule of every pool (no `Remove` ever touches it, a `Rename` onto it carries the same
@@ -321,6 +347,310 @@ theorem resolves_stable (sched : List Nat) (s : State) (h : Inv s.fs.get s.procs
   | cons i rest ih =>
     simp only [runSched]
     exact ih (s.step i) (inv_step s i h) (adv_present_persist s i h k hk)
+
+/-! ### the signature section of a signed package
+
+`cachePackage` advertises control, signature, data, tar — in this order; `cachedPackage` reports a hit when
+control and data resolve and takes `Signed` / the signature's size from whether `<ctl>.sig.tar.gz`
+resolves.  So the entry of the data section must never be visible without the signature's:
+`Dep k2 k0` ("data `k2` depends on signature `k0`"). -/
+
+theorem safe_chunks (Dep : Cid → Cid → Prop) (pres : Cid → Prop) (n : Nat) (t : Name) (rest : Prog)
+    (hr : safe Dep pres rest) : safe Dep pres (chunks n t rest) := by
+  induction n with
+  | zero => exact hr
+  | succ n ih => exact ⟨trivial, ih⟩
+
+theorem safe_advertise (Dep : Cid → Cid → Prop) (pres : Cid → Prop) (t : Name) (k : Cid) (rest : Prog)
+    (hd : ∀ d, Dep k d → pres d) (hr : safe Dep (learn Dep pres (.adv k)) rest) :
+    safe Dep pres (advertise t k rest) :=
+  ⟨⟨trivial, hr⟩, Or.inr ⟨fun k' hk d hkd => hd d (by cases hk; exact hkd), hr⟩⟩
+
+/-- `PackageData` (incl. the regeneration's rename onto `.dat.tar`) and the build's reads -/
+theorem safe_pkgData (Dep : Cid → Cid → Prop) (pres : Cid → Prop) (t4 : Name) (k1 k2 k3 : Cid) (n : Nat)
+    (h3 : ∀ d, ¬ Dep k3 d) : safe Dep pres (pkgData t4 k2 k3 n (pkgUse k1)) := by
+  refine ⟨⟨trivial, trivial, trivial⟩, Or.inr ⟨trivial, trivial, trivial, trivial, ?_⟩⟩
+  refine safe_chunks Dep _ n t4 _ ⟨trivial, ?_, trivial, trivial, trivial, trivial⟩
+  intro k hk d hd
+  cases hk
+  exact absurd hd (h3 d)
+
+theorem safe_pkgExpand (Dep : Cid → Cid → Prop) (pres : Cid → Prop) (sg : Option (Name × Cid))
+    (t1 t2 t3 : Name) (k1 k2 k3 : Cid) (n : Nat) (tail : Prog) (ht : safe Dep pres tail) :
+    safe Dep pres (pkgExpand sg t1 t2 t3 k1 k2 k3 n tail) := by
+  have hrest : safe Dep pres (.op (.create t2 k2) <| .op (.mark 2) <| .op (.create t3 k3) <| .op (.mark 3) <|
+      chunks n t2 <| chunks n t3 <| .op (.finish t3) <| .op (.finish t2) <| .op (.mark 4) <|
+      .op (.read t1 true) <| .op (.read t3 false) <| .op (.mark 5) tail) := by
+    refine ⟨trivial, trivial, trivial, trivial, ?_⟩
+    refine safe_chunks Dep _ n t2 _ (safe_chunks Dep _ n t3 _ ?_)
+    exact ⟨trivial, trivial, trivial, trivial, trivial, trivial, ht⟩
+  unfold pkgExpand
+  refine ⟨trivial, trivial, trivial, ?_⟩
+  cases sg with
+  | none =>
+    simp only [expandHead]
+    refine ⟨trivial, trivial, ?_⟩
+    exact safe_chunks Dep _ n t1 _ ⟨trivial, trivial, hrest⟩
+  | some p =>
+    obtain ⟨t0, k0⟩ := p
+    simp only [expandHead]
+    refine ⟨trivial, trivial, ?_⟩
+    refine safe_chunks Dep _ n t0 _ ⟨trivial, trivial, trivial, trivial, ?_⟩
+    exact safe_chunks Dep _ n t1 _ ⟨trivial, hrest⟩
+
+/-- the ordering discipline of one package: nothing depends on… and nothing but the data section
+depends on anything; the data section depends on the signature section only (and on it, when there is one) -/
+structure PkgDeps (Dep : Cid → Cid → Prop) (sg : Option (Name × Cid)) (k1 k2 k3 : Cid) : Prop where
+  h1 : ∀ d, ¬ Dep k1 d
+  h3 : ∀ d, ¬ Dep k3 d
+  h0 : SgAll sg (fun _ k0 => ∀ d, ¬ Dep k0 d)
+  h2 : ∀ d, Dep k2 d → ∃ t0, sg = some (t0, d)
+  hd : SgAll sg (fun _ k0 => Dep k2 k0)
+
+/-- `cachePackage` in the code's order (control, signature, data, tar) respects the dependencies -/
+theorem safe_cacheTail (Dep : Cid → Cid → Prop) (pres : Cid → Prop) (sg : Option (Name × Cid))
+    (t1 t2 t3 t4 : Name) (k1 k2 k3 : Cid) (n : Nat) (hp : PkgDeps Dep sg k1 k2 k3) :
+    safe Dep pres (cacheTail (pkgData t4 k2 k3 n) sg t1 t2 t3 k1 k2 k3) := by
+  unfold cacheTail
+  refine safe_advertise Dep _ t1 k1 _ (fun d hd => absurd hd (hp.h1 d)) ⟨trivial, ?_⟩
+  have hrest : ∀ pres' : Cid → Prop, (∀ d, Dep k2 d → pres' d) →
+      safe Dep pres' (advertise t2 k2 <| .op (.mark 7) <| advertise t3 k3 <| .op (.mark 8) <|
+        pkgData t4 k2 k3 n (pkgUse k1)) := by
+    intro pres' h2
+    refine safe_advertise Dep _ t2 k2 _ h2 ⟨trivial, ?_⟩
+    refine safe_advertise Dep _ t3 k3 _ (fun d hd => absurd hd (hp.h3 d)) ⟨trivial, ?_⟩
+    exact safe_pkgData Dep _ t4 k1 k2 k3 n hp.h3
+  cases sg with
+  | none =>
+    simp only [advSig]
+    refine hrest _ ?_
+    intro d hd
+    obtain ⟨t0, h⟩ := hp.h2 d hd
+    cases h
+  | some p =>
+    obtain ⟨t0, k0⟩ := p
+    simp only [advSig]
+    refine safe_advertise Dep _ t0 k0 _ (fun d hd => absurd hd (hp.h0 d)) ⟨trivial, ?_⟩
+    refine hrest _ ?_
+    intro d hd
+    obtain ⟨t0', h⟩ := hp.h2 d hd
+    cases h
+    exact Or.inr (Or.inl rfl)
+
+/-- the signature look-up of `cachedPackage` is safe where the signature entry is known to be present -/
+theorem safe_sigProbe (Dep : Cid → Cid → Prop) (pres : Cid → Prop) (sg : Option (Name × Cid)) (rest : Prog)
+    (h0 : SgAll sg (fun _ k0 => pres k0)) (hr : ∀ pres' : Cid → Prop, (∀ x, pres x → pres' x) → safe Dep pres' rest) :
+    safe Dep pres (sigProbe sg rest) := by
+  cases sg with
+  | none => exact hr pres (fun _ h => h)
+  | some p =>
+    obtain ⟨t0, k0⟩ := p
+    have hsup : ∀ x, pres x → learn Dep pres (.adv k0) x := learn_sup Dep pres (.adv k0)
+    exact ⟨⟨trivial, hr (learn Dep pres (.adv k0)) hsup⟩, Or.inl ⟨k0, rfl, h0⟩⟩
+
+/-- T: the package builder of the tree (hit path: control, data, *then* signature; miss path:
+advertises in the order control, signature, data, tar) respects the dependencies from any knowledge -/
+theorem safe_pkgBuilder (Dep : Cid → Cid → Prop) (pres : Cid → Prop) (sg : Option (Name × Cid))
+    (t1 t2 t3 t4 : Name) (k1 k2 k3 : Cid) (n : Nat) (hp : PkgDeps Dep sg k1 k2 k3) :
+    safe Dep pres (pkgBuilder sg t1 t2 t3 t4 k1 k2 k3 n) := by
+  have hmiss : ∀ pres', safe Dep pres' (pkgMissWith (pkgData t4 k2 k3 n) sg t1 t2 t3 k1 k2 k3 n) :=
+    fun pres' => safe_pkgExpand Dep pres' sg t1 t2 t3 k1 k2 k3 n _
+      (safe_cacheTail Dep pres' sg t1 t2 t3 t4 k1 k2 k3 n hp)
+  unfold pkgBuilder pkgBuilderWith
+  refine ⟨⟨trivial, ⟨trivial, ?_⟩, Or.inr (hmiss _)⟩, Or.inr (hmiss _)⟩
+  refine safe_sigProbe Dep _ sg _ ?_ (fun pres' _ => safe_pkgData Dep pres' t4 k1 k2 k3 n hp.h3)
+  have := hp.hd
+  cases sg with
+  | none => trivial
+  | some p => exact Or.inr (Or.inr this)
+
+theorem safe_pkgOffline (Dep : Cid → Cid → Prop) (pres : Cid → Prop) (sg : Option (Name × Cid))
+    (t4 : Name) (k1 k2 k3 : Cid) (n : Nat) (hp : PkgDeps Dep sg k1 k2 k3) :
+    safe Dep pres (pkgOffline sg t4 k1 k2 k3 n) := by
+  unfold pkgOffline
+  refine ⟨⟨trivial, ⟨trivial, ?_⟩, Or.inr trivial⟩, Or.inr trivial⟩
+  refine safe_sigProbe Dep _ sg _ ?_ (fun pres' _ => safe_pkgData Dep pres' t4 k1 k2 k3 n hp.h3)
+  have := hp.hd
+  cases sg with
+  | none => trivial
+  | some p => exact Or.inr (Or.inr this)
+
+theorem safe_index (Dep : Cid → Cid → Prop) (pres : Cid → Prop) (t : Name) (hk gk : Cid) (n : Nat)
+    (hg : ∀ d, ¬ Dep gk d) : safe Dep pres (indexOnline t hk gk n) := by
+  refine ⟨⟨trivial, trivial⟩, Or.inr ⟨trivial, trivial, trivial, ?_⟩⟩
+  refine safe_chunks Dep _ n t _ ⟨trivial, trivial, ?_⟩
+  exact safe_advertise Dep _ t gk _ (fun d hd => absurd hd (hg d)) ⟨trivial, trivial, trivial⟩
+
+/-- a pool of builders each of which respects the dependencies without knowing anything to be present -/
+def SafePool (Dep : Cid → Cid → Prop) (P : Nat → Proc) : Prop := ∀ i, safe Dep (fun _ => False) (P i).prog
+
+theorem sinv_init (Dep : Cid → Cid → Prop) (fs0 : FS) (P : Nat → Proc) (hg : GoodFS fs0.get)
+    (hd : DepOk Dep fs0.get) (hP : FreshPool P) (hS : SafePool Dep P) : SInv Dep ⟨fs0, P⟩ :=
+  ⟨inv_init fs0 P hg hP, hd, fun i => safe_mono Dep _ _ _ (fun _ h => h.elim) (hS i)⟩
+
+/-- T `dep_invariant`: in every reachable state (any good starting directory that respects the
+dependencies, any number of builders, any interleaving, any crash prefixes) no advertised entry is
+visible without the entries it depends on. -/
+theorem dep_invariant (Dep : Cid → Cid → Prop) (fs0 : FS) (P : Nat → Proc) (sched : List Nat)
+    (hg : GoodFS fs0.get) (hd : DepOk Dep fs0.get) (hP : FreshPool P) (hS : SafePool Dep P) :
+    DepOk Dep (runSched sched ⟨fs0, P⟩).fs.get :=
+  (sinv_runSched Dep sched _ (sinv_init Dep fs0 P hg hd hP hS)).dep
+
+/-- T `hit_has_signature`: in every reachable state, if the control and the data entry of a signed
+package resolve — `cachedPackage` reports a hit — then its signature entry resolves too and holds the
+complete signature content. -/
+theorem hit_has_signature (Dep : Cid → Cid → Prop) (fs0 : FS) (P : Nat → Proc) (sched : List Nat)
+    (hg : GoodFS fs0.get) (hd : DepOk Dep fs0.get) (hP : FreshPool P) (hS : SafePool Dep P)
+    (k0 k1 k2 : Cid) (hdep : Dep k2 k0)
+    (hit : (runSched sched ⟨fs0, P⟩).fs.stat (.adv k1) = true ∧ (runSched sched ⟨fs0, P⟩).fs.stat (.adv k2) = true) :
+    (runSched sched ⟨fs0, P⟩).fs.resolve (.adv k0) = some (k0, true) := by
+  have h := sinv_runSched Dep sched _ (sinv_init Dep fs0 P hg hd hP hS)
+  rw [resolve_eq]
+  exact present_resolves h.inv.good (h.dep k2 k0 hdep (present_of_resolved hit.2))
+
+/-- T `hit_sections_correct` (`hit_correct` for the whole package): in every reachable state the
+sections a cache hit hands to the build — signature (signed apk), control, data — are exactly the complete
+sections `ExpandApk` produces from the fetched apk. -/
+theorem hit_sections_correct (Dep : Cid → Cid → Prop) (fs0 : FS) (P : Nat → Proc) (sched : List Nat)
+    (hg : GoodFS fs0.get) (hd : DepOk Dep fs0.get) (hP : FreshPool P) (hS : SafePool Dep P)
+    (sg : Option Cid) (k1 k2 : Cid) (hdep : ∀ k0, sg = some k0 → Dep k2 k0) (l : List (Cid × Bool))
+    (hit : hitSections (runSched sched ⟨fs0, P⟩).fs sg k1 k2 = some l) :
+    l = fetchSections sg k1 k2 := by
+  have h := sinv_runSched Dep sched _ (sinv_init Dep fs0 P hg hd hP hS)
+  generalize (runSched sched ⟨fs0, P⟩) = s at h hit
+  unfold hitSections at hit
+  split at hit
+  · next hc =>
+    simp only [Bool.and_eq_true] at hc
+    have r1 : s.fs.resolve (.adv k1) = some (k1, true) := by
+      rw [resolve_eq]; exact present_resolves h.inv.good (present_of_resolved hc.1)
+    have p2 := present_of_resolved (g := s.fs.get) hc.2
+    have r2 : s.fs.resolve (.adv k2) = some (k2, true) := by
+      rw [resolve_eq]; exact present_resolves h.inv.good p2
+    cases sg with
+    | none =>
+      simp only [r1, r2, Option.some.injEq] at hit
+      rw [← hit]; rfl
+    | some k0 =>
+      have r0 : s.fs.resolve (.adv k0) = some (k0, true) := by
+        rw [resolve_eq]; exact present_resolves h.inv.good (h.dep k2 k0 (hdep k0 rfl) p2)
+      simp only [r0, r1, r2, Option.some.injEq] at hit
+      rw [← hit]; rfl
+  · cases hit
+
+/-- …hence `Signed` (is there a signature section) and the recorded size (the sum of the sections'
+sizes — what ends up as `S:` in lib/apk/db/installed) of a hit are those of the fetched apk. -/
+theorem hit_size_signed_correct (Dep : Cid → Cid → Prop) (fs0 : FS) (P : Nat → Proc) (sched : List Nat)
+    (hg : GoodFS fs0.get) (hd : DepOk Dep fs0.get) (hP : FreshPool P) (hS : SafePool Dep P)
+    (sg : Option Cid) (k1 k2 : Cid) (hdep : ∀ k0, sg = some k0 → Dep k2 k0) (l : List (Cid × Bool))
+    (hit : hitSections (runSched sched ⟨fs0, P⟩).fs sg k1 k2 = some l) (size : Cid → Nat) :
+    sectionsSize size l = sectionsSize size (fetchSections sg k1 k2) ∧
+      (l.length = 3 ↔ sg.isSome = true) := by
+  rw [hit_sections_correct Dep fs0 P sched hg hd hP hS sg k1 k2 hdep l hit]
+  refine ⟨rfl, ?_⟩
+  cases sg <;> simp [fetchSections]
+
+/-- T `no_unsigned_use`: under every schedule no builder ever gets to the point where `cachedPackage`
+goes on with a signed package as an unsigned one (whatever the builder reads through the signature's
+name is then the complete signature: `hit_correct`). -/
+theorem no_unsigned_use (Dep : Cid → Cid → Prop) (fs0 : FS) (P : Nat → Proc) (sched : List Nat)
+    (hg : GoodFS fs0.get) (hd : DepOk Dep fs0.get) (hP : FreshPool P) (hS : SafePool Dep P) (i : Nat) :
+    (runSched sched ⟨fs0, P⟩).atUnsigned i = false := by
+  have h := (sinv_runSched Dep sched _ (sinv_init Dep fs0 P hg hd hP hS)).safe i
+  unfold State.atUnsigned
+  generalize ((runSched sched ⟨fs0, P⟩).procs i).prog = prog at h
+  cases prog with
+  | halt b => rfl
+  | ifStat n y no => rfl
+  | op o next =>
+    cases o <;> first | rfl | exact h.1.elim
+
+/-! #### witnesses: the hypotheses are satisfiable, and both ways of getting the order wrong fail -/
+
+/-- data section 2 depends on signature section 4 -/
+def sigDep : Cid → Cid → Prop := fun k d => k = 2 ∧ d = 4
+
+theorem sigDep_pkg (t0 : Name) : PkgDeps sigDep (some (t0, 4)) 1 2 3 := by
+  refine ⟨?_, ?_, ?_, ?_, ⟨rfl, rfl⟩⟩
+  · intro d h; exact absurd h.1 (by decide)
+  · intro d h; exact absurd h.1 (by decide)
+  · intro d h; exact absurd h.1 (by decide)
+  · intro d h; exact ⟨t0, by rw [h.2]⟩
+
+/-- two builders of the tree for the same signed package (signature 4, control 1, data 2, tar 3) -/
+def signedPool : Nat → Proc
+  | 0 => Proc.new (pkgBuilder (some (.tmp 0, 4)) (.tmp 1) (.tmp 2) (.tmp 3) (.tmp 10) 1 2 3 1)
+  | 1 => Proc.new (pkgBuilder (some (.tmp 5, 4)) (.tmp 6) (.tmp 7) (.tmp 8) (.tmp 11) 1 2 3 1)
+  | _ => Proc.new (.halt true)
+
+theorem signedPool_fresh : FreshPool signedPool := by
+  intro i
+  match i with
+  | 0 => exact ⟨_, rfl, wt_pkgBuilder _ _ _ _ _ 1 2 3 1 (temps_lit _ _ _ _ _ (by decide))⟩
+  | 1 => exact ⟨_, rfl, wt_pkgBuilder _ _ _ _ _ 1 2 3 1 (temps_lit _ _ _ _ _ (by decide))⟩
+  | _ + 2 => exact ⟨_, rfl, trivial⟩
+
+theorem signedPool_safe : SafePool sigDep signedPool := by
+  intro i
+  match i with
+  | 0 => exact safe_pkgBuilder sigDep _ _ _ _ _ _ 1 2 3 1 (sigDep_pkg _)
+  | 1 => exact safe_pkgBuilder sigDep _ _ _ _ _ _ 1 2 3 1 (sigDep_pkg _)
+  | _ + 2 => exact trivial
+
+theorem depOk_empty (Dep : Cid → Cid → Prop) : DepOk Dep FS.empty.get := fun _ _ _ h => absurd rfl h
+
+/-- the same two builders with the regression "cachePackage advertises the signature last" -/
+def sigLastPool : Nat → Proc
+  | 0 => Proc.new (pkgBuilderSigLast (some (.tmp 0, 4)) (.tmp 1) (.tmp 2) (.tmp 3) (.tmp 10) 1 2 3 1)
+  | 1 => Proc.new (pkgBuilderSigLast (some (.tmp 5, 4)) (.tmp 6) (.tmp 7) (.tmp 8) (.tmp 11) 1 2 3 1)
+  | _ => Proc.new (.halt true)
+
+/-- T: with the signature advertised last, `hit_has_signature` is false: builder 0 is killed (or is
+merely slower) right after the data link (30 steps); control and data resolve, the signature does not;
+a hit then yields two sections where the fetch yields three (`Signed = false`, smaller size) … -/
+theorem hit_has_signature_fails_sig_last :
+    let s := runSched (List.replicate 30 0) ⟨FS.empty, sigLastPool⟩
+    s.fs.stat (.adv 1) = true ∧ s.fs.stat (.adv 2) = true ∧ s.fs.resolve (.adv 4) = none ∧
+    hitSections s.fs (some 4) 1 2 = some [(1, true), (2, true)] ∧
+    fetchSections (some 4) 1 2 = [(4, true), (1, true), (2, true)] := by decide
+
+/-- …and builder 1 takes that hit: it gets to `unsigned` (5 steps) and completes successfully without
+ever having read the signature section. -/
+theorem sig_last_unsigned_use :
+    (runSched (List.replicate 30 0 ++ List.replicate 5 1) ⟨FS.empty, sigLastPool⟩).atUnsigned 1 = true ∧
+    (let s := runSched (List.replicate 30 0 ++ List.replicate 17 1) ⟨FS.empty, sigLastPool⟩
+     (s.procs 1).prog = .halt true ∧ (s.procs 1).obs.all (fun o => o.1 != .adv 4) = true) := by decide
+
+/-- the builders of the tree before the fix F19c (`cachedPackage` probes the signature *before* the data
+section) -/
+def racyPool : Nat → Proc
+  | 0 => Proc.new (pkgBuilderRacy (some (.tmp 0, 4)) (.tmp 1) (.tmp 2) (.tmp 3) (.tmp 10) 1 2 3 1)
+  | 1 => Proc.new (pkgBuilderRacy (some (.tmp 5, 4)) (.tmp 6) (.tmp 7) (.tmp 8) (.tmp 11) 1 2 3 1)
+  | _ => Proc.new (.halt true)
+
+/-- builder 0 has advertised the control section (27 steps); builder 1 finds it, does not find the
+signature (3 steps); builder 0 advertises signature and data (6 steps); builder 1 finds the data section -/
+def f19cSched : List Nat :=
+  List.replicate 27 0 ++ List.replicate 3 1 ++ List.replicate 6 0 ++ List.replicate 2 1
+
+/-- T F19c: although the directory respects the order at every moment, the reader of the tree before
+the fix probed in the *same* order as the writer advertises: a concurrent build uses the package as an
+unsigned one — and completes successfully, never having read the signature that is advertised by then.
+Witness replayed on the Go code: corpus/cache/F19c.json. -/
+theorem f19c_race :
+    (runSched f19cSched ⟨FS.empty, racyPool⟩).atUnsigned 1 = true ∧
+    (let s := runSched (f19cSched ++ List.replicate 12 1) ⟨FS.empty, racyPool⟩
+     (s.procs 1).prog = .halt true ∧ (s.procs 1).obs.all (fun o => o.1 != .adv 4) = true ∧
+     s.fs.resolve (.adv 4) = some (4, true)) := by decide
+
+set_option maxRecDepth 4000 in
+/-- the same interleaving on the repaired tree: builder 1 does not find the data section, takes the miss
+path and completes; the final directory gives the full hit -/
+theorem fixed_f19c_schedule :
+    let s := runSched (List.replicate 27 0 ++ List.replicate 3 1 ++ List.replicate 6 0 ++ List.replicate 39 1)
+      ⟨FS.empty, signedPool⟩
+    (s.procs 1).prog = .halt true ∧ hitSections s.fs (some 4) 1 2 = some (fetchSections (some 4) 1 2) := by
+  decide
 
 /-! ### recovery: a builder alone, from any crash state -/
 
@@ -440,24 +770,32 @@ theorem recovery_live_index (fs : FS) (hg : GoodFS fs.get) (t : Name) (htmp : t.
     intro g3 good3 pres _ _ _
     exact SG_mark _ (SG_read (present_resolves good3 pres) (SG_halt _))
 
-/-- T `recovery_live_pkg`: from ANY good directory a package builder with four fresh temp names
-completes: on the hit path, on the hit path with a missing `.dat.tar` (regeneration), on the miss path
-(whatever subset of the three final names earlier, killed builders left behind). -/
-theorem recovery_live_pkg (fs : FS) (hg : GoodFS fs.get) (t1 t2 t3 t4 : Name) (k1 k2 k3 : Cid) (n : Nat)
+/-- T `recovery_live_pkg`: from ANY good directory a package builder (signed or unsigned apk) with
+fresh temp names completes: on the hit path (with or without the signature entry), on the hit path with
+a missing `.dat.tar` (regeneration), on the miss path (whatever subset of the final names earlier,
+killed builders left behind). -/
+theorem recovery_live_pkg (fs : FS) (hg : GoodFS fs.get) (sg : Option (Name × Cid)) (t1 t2 t3 t4 : Name)
+    (k1 k2 k3 : Cid) (n : Nat)
     (f1 : fs.get t1 = none) (f2 : fs.get t2 = none) (f3 : fs.get t3 = none) (f4 : fs.get t4 = none)
-    (m1 : t1.isTmp = true) (m2 : t2.isTmp = true) (m3 : t3.isTmp = true) (m4 : t4.isTmp = true)
-    (h12 : t1 ≠ t2) (h13 : t1 ≠ t3) (h23 : t2 ≠ t3) (h14 : t1 ≠ t4) (h24 : t2 ≠ t4) (h34 : t3 ≠ t4)
+    (f0 : SgAll sg (fun t0 _ => fs.get t0 = none))
+    (ht : Temps sg t1 t2 t3 t4)
     (Γ : Ctx) (obs : List Obs) :
-    (exec fs Γ obs (pkgBuilder t1 t2 t3 t4 k1 k2 k3 n)).2.2.2 = true := by
-  suffices h : SG fs.get (pkgBuilder t1 t2 t3 t4 k1 k2 k3 n) from h fs Γ obs rfl
-  have hmiss := SG_pkgMiss (k1 := k1) (k2 := k2) (k3 := k3) n hg f1 f2 f3 f4 m1 m2 m3 m4 h12 h13 h23 h14 h24 h34
+    (exec fs Γ obs (pkgBuilder sg t1 t2 t3 t4 k1 k2 k3 n)).2.2.2 = true := by
+  suffices h : SG fs.get (pkgBuilder sg t1 t2 t3 t4 k1 k2 k3 n) from h fs Γ obs rfl
+  have hs : SgAll sg (fun t0 _ => fs.get t0 = none ∧ t0.isTmp = true ∧ t0 ≠ t1 ∧ t0 ≠ t2 ∧ t0 ≠ t3 ∧ t0 ≠ t4) := by
+    have := ht.hs
+    cases sg with
+    | none => trivial
+    | some p => exact ⟨f0, this⟩
+  have hmiss := SG_pkgMiss (k1 := k1) (k2 := k2) (k3 := k3) n hg f1 f2 f3 f4 ht.m1 ht.m2 ht.m3 ht.m4
+    ht.h12 ht.h13 ht.h23 ht.h14 ht.h24 ht.h34 hs
   unfold pkgBuilder pkgBuilderWith
   refine SG_ifStat ?_ (fun _ => hmiss)
   intro hres1
   have p1 := present_of_resolved hres1
   refine SG_read (present_resolves hg p1) (SG_ifStat ?_ (fun _ => hmiss))
   intro hres2
-  exact SG_pkgData n hg p1 (present_of_resolved hres2) f4 m4
+  exact SG_mark _ (SG_sigProbe sg hg (SG_pkgData n hg p1 (present_of_resolved hres2) f4 ht.m4))
 
 /-- T `recovery_correct`: …and it completes *with the uncached result*: run by the scheduler from any
 reachable state, everything the recovering builder read through an advertised name is the complete
@@ -560,9 +898,23 @@ theorem tie_cachePackage : Generated.cache_cachePackageCalls =
      "Point:pkg.sig", "paths.AdvertiseCachedFile", "Point:pkg.dat", "paths.AdvertiseCachedFile",
      "Point:pkg.tar", "exp.PackageData"] := rfl
 
+/-- the writer's order: control, signature (signed apk only), data, tar — `cacheTail` -/
+theorem tie_cachePackage_order : Generated.cache_cachePackageAdvOrder =
+    ["ctlDst", "[exp.SignatureFile != \"\"]sigDst", "datDst", "tarDst"] := rfl
+
 theorem tie_cachedPackage : Generated.cache_cachedPackageCalls =
-    ["os.Stat", "exp.ControlData", "os.Stat", "os.ReadFile", "os.Open", "a.datahash", "os.Stat",
-     "exp.PackageData"] := rfl
+    ["os.Stat", "exp.ControlData", "os.Open", "a.datahash", "os.Stat", "Point:hit.probe", "os.Stat",
+     "os.ReadFile", "exp.PackageData"] := rfl
+
+/-- the reader's order: control and data are required (a failed `Stat` is a miss), the signature is looked
+up last (marker `hit.probe` in between) and its absence means "unsigned" — `pkgBuilderWith` / `sigProbe` -/
+theorem tie_cachedPackage_probes : Generated.cache_cachedPackageProbes =
+    ["ctl:required", "dat:required", "Point", "sig:optional"] := rfl
+
+/-- three gzip members = signature, control, data; two = control, data — `expandHead` -/
+theorem tie_expand_streams : Generated.cache_expandStreamIndex =
+    ["3:signatureIndex=0,controlDataIndex=1,packageIndex=2",
+     "2:signatureIndex=-1,controlDataIndex=0,packageIndex=1", "default:"] := rfl
 
 theorem tie_expandPackage : Generated.cache_expandPackageCalls =
     ["a.cachedPackage", "os.MkdirAll", "a.FetchPackage", "expandapk.ExpandApk", "a.cachePackage"] := rfl
